@@ -287,13 +287,27 @@ func (sc *Context) DocValueReaderForReader(r DocumentValueReadable, fields []str
 	dvReader := sc.dvReaders[r]
 	if dvReader == nil {
 		var err error
-		dvReader, err = r.DocumentValueReader(fields)
+		dvReader, err = r.DocumentValueReader(uniqueFields(fields))
 		if err != nil {
 			return nil, err
 		}
 		sc.dvReaders[r] = dvReader
 	}
 	return dvReader, nil
+}
+
+// uniqueFields keeps the first occurrence of every field: a field listed twice
+// would otherwise have its values visited (and appended) twice
+func uniqueFields(fields []string) []string {
+	seen := make(map[string]struct{}, len(fields))
+	rv := make([]string, 0, len(fields))
+	for _, f := range fields {
+		if _, ok := seen[f]; !ok {
+			seen[f] = struct{}{}
+			rv = append(rv, f)
+		}
+	}
+	return rv
 }
 
 func (sc *Context) Size() int {
